@@ -195,5 +195,5 @@ func (s *spec) read(u uuid.UUID) string {
 	if _, ok := s.m[u]; !ok {
 		return "none"
 	}
-	return s.renderEntry(u)
+	return "found " + s.renderEntry(u)
 }
